@@ -90,10 +90,28 @@ def _detect_hdr_rx(ctx):
     r = ctx.rng
     frames = [streams.command_frame(r, r.randrange(4)), streams.ack(r.randrange(4)),
               streams.raw_frame(0x80 | (r.randrange(4) << 2), bytes(r.getrandbits(8) for _ in range(9)))]
-    pats = [(a,) for a in range(40)] + list(itertools.combinations(range(40), 2))
-    if not ctx.thorough():
-        pats = [(a,) for a in range(40)] + r.sample(pats[40:], 160)
+    # headers whose checksum byte is 0x00 or has one or two bits set: a 1- / 2-bit error can leave 0x00 there (a decoder
+    # that reads an all-zero checksum field as "not set" lets such a header through)
+    low = {}
+    for _ in range(4000):
+        f = streams.raw_frame(r.choice([0xC0, 0x40, 0x80, 0x00]) | (r.randrange(4) << 2) | r.choice([0, 0, 2]),
+                              bytes(r.getrandbits(8) for _ in range(r.randrange(4, 60))))
+        w = bin(f[6]).count("1")
+        if w <= 2 and w not in low:
+            low[w] = f
+        if len(low) == 3:
+            break
+    frames += [low[w] for w in sorted(low)]
+    allpairs = list(itertools.combinations(range(40), 2))
     for fi, good in enumerate(frames):
+        pats = [(a,) for a in range(40)] + (allpairs if ctx.thorough() else r.sample(allpairs, 160))
+        ones = [32 + k for k in range(8) if good[6] >> k & 1]
+        if len(ones) <= 2:
+            # the patterns that zero the checksum byte, alone and together with one more bit
+            zeroing = [tuple(ones)] if ones else []
+            if len(ones) <= 1:
+                zeroing += [tuple(sorted(set(ones + [b]))) for b in range(32)]
+            pats = [p for p in zeroing if p] + pats
         is_ack = bool(good[5] & 1)
         alone, _f, _r = rxworld.session([good])
         base = [x[:1] for x in alone[0].split(",")] if alone[0] != "." else []
@@ -107,6 +125,8 @@ def _detect_hdr_rx(ctx):
                 want = [] if label == "fresh" else base
                 ctx.case(("hdr-rx", fi, pat, label), sample=dict(frame=hx(good)[:28], bits=list(pat), situation=label))
                 ctx.count("hdr-rx-" + label)
+                if b[6] == 0:
+                    ctx.count("hdr-rx-checksum-byte-zeroed")
                 # the damaged copy may not add an acknowledgement or a delivery (an ACK frame adds nothing either way)
                 if log != want and not (is_ack and log == want):
                     ctx.counterexample("header-corruption-accepted",
@@ -127,6 +147,13 @@ def _detect_rx(ctx):
         victim = r.randrange(len(wires))
         for _ in range(ctx.scale(12, 60)):
             raw = wires[victim]
+            if r.random() < 0.5:
+                # the same fragment as the NCP would re-send it / with acknowledgement bits in its flags: still a data
+                # frame, still protected by the body checksum
+                rb = bytearray(raw)
+                rb[5] |= r.choice([0x02, 0x10, 0x20, 0x30, 0x32])
+                rb[6] = streams.crc8(bytes(rb[2:6]))
+                raw = bytes(rb)
             nbits = (len(raw) - 7) * 8
             ln = min(r.randrange(1, 17), nbits)
             start = r.choice([0, 8, 16, nbits - ln, r.randrange(0, nbits - ln + 1)])
